@@ -48,6 +48,8 @@ def cases(tier, seed):
             yield {"kind": "svgp_mt", "wrapper": wrapper, "seed": rnd.randrange(10**6)}
         for lk in ("gauss", "fixed", "fixed+learn", "mt"):
             yield {"kind": "noise", "lik": lk, "seed": rnd.randrange(10**6)}
+        for over, obj, val in itertools.product(["double", "float"], ["float64", "float32"], [1e-2, 0.5]):
+            yield {"kind": "dtype_floor", "override": over, "object": obj if obj == "float32" else "double", "value": val, "seed": rnd.randrange(10**6)}
         # exact multitask models (Kronecker) and exact models with missing observations under both NaN policies
         for rank, fpv, geo in itertools.product([0, 1], [False, True], ["random", "dups"]):
             yield {"kind": "mt_model", "rank": rank, "fast_pred_var": fpv, "geom": geo, "noise": rnd.choice([1e-4, 1e-2, 0.3]), "seed": rnd.randrange(10**6)}
@@ -179,7 +181,7 @@ def run_case(case, ctx):
     from vf import util
 
     g = util.gen(case["seed"])
-    return {"gram": _gram, "model": _model, "svgp": _svgp, "svgp_mt": _svgp_multitask, "mt_model": _mt_model, "nan_model": _nan_model, "noise": _noise, "history": _history}[case["kind"]](case, ctx, g)
+    return {"gram": _gram, "model": _model, "svgp": _svgp, "svgp_mt": _svgp_multitask, "mt_model": _mt_model, "nan_model": _nan_model, "dtype_floor": _dtype_floor, "noise": _noise, "history": _history}[case["kind"]](case, ctx, g)
 
 
 def _history(case, ctx, g):
@@ -345,6 +347,41 @@ def _model(case, ctx, g):
                 lo, hi = m(xs).confidence_region()
                 ctx.expect("variance_floor", bool((hi - lo >= 4 * mv**0.5 * (1 - 1e-9)).all()), f"confidence region narrower than 4*sqrt(min_variance={mv})", min_variance=mv)
     ctx.cell({k: v for k, v in case.items() if k != "seed"})
+
+
+def _dtype_floor(case, ctx, g):
+    """the configured minimum for ONE dtype is overridden in a block: objects of the OTHER dtype keep their own configured
+    minimum (variance floor of distributions, noise floor of fixed-noise likelihoods)"""
+    import warnings
+
+    import torch
+
+    import gpytorch
+    from gpytorch import settings as S
+
+    over, obj = case["override"], case["object"]
+    odt = torch.float32 if obj in ("float32", "float") else torch.float64
+    obj = "float" if odt == torch.float32 else "double"
+    kw = {("double_value" if over == "double" else "float_value"): case["value"]}
+    floor_v = S.min_variance.value(odt) if over != obj else case["value"]
+    floor_n = S.min_fixed_noise.value(odt) if over != obj else case["value"]
+    with S.min_variance(**kw), warnings.catch_warnings():
+        warnings.simplefilter("ignore")
+        d = gpytorch.distributions.MultivariateNormal(torch.zeros(4, dtype=odt), (1e-3 * floor_v) * torch.eye(4, dtype=odt))
+        v, sd = d.variance, d.stddev
+        ctx.expect("variance_floor", bool((v >= floor_v * (1 - 1e-6)).all()) and bool((sd >= floor_v**0.5 * (1 - 1e-6)).all()),
+                   f"{obj} distribution inside min_variance({kw}) reports variance {float(v.min()):.3e}; its configured minimum is {floor_v:.1e}", min_variance=floor_v, other_dtype=over != obj)
+        mt = gpytorch.distributions.MultitaskMultivariateNormal(torch.zeros(2, 2, dtype=odt), (1e-3 * floor_v) * torch.eye(4, dtype=odt))
+        ctx.expect("variance_floor", bool((mt.variance >= floor_v * (1 - 1e-6)).all()), f"{obj} multitask distribution inside min_variance({kw}) reports variance {float(mt.variance.min()):.3e} < {floor_v:.1e}",
+                   min_variance=floor_v, multitask=True, other_dtype=over != obj)
+    with S.min_fixed_noise(**kw), warnings.catch_warnings():
+        warnings.simplefilter("ignore")
+        lik = gpytorch.likelihoods.FixedNoiseGaussianLikelihood(noise=torch.full((3,), 1e-3 * floor_n, dtype=odt))
+        base = gpytorch.distributions.MultivariateNormal(torch.zeros(3, dtype=odt), torch.eye(3, dtype=odt))
+        added = torch.diagonal(lik(base).covariance_matrix) - 1.0
+        ctx.expect("noise_at_least_lower_bound", bool((lik.noise >= floor_n * (1 - 1e-6)).all()) and bool((added >= floor_n * (1 - 1e-3) - (1e-6 if odt == torch.float32 else 0)).all()),
+                   f"{obj} fixed-noise likelihood built inside min_fixed_noise({kw}) keeps noise {float(lik.noise.min()):.3e}; its configured minimum is {floor_n:.1e}", other_dtype=over != obj)
+    ctx.cell({k: v_ for k, v_ in case.items() if k != "seed"})
 
 
 def _mt_model(case, ctx, g):
